@@ -1,5 +1,6 @@
 import ElaVerif.Lemmas.DepositInv
 import ElaVerif.Model.CRDeposit
+import ElaVerif.Gen.C28
 /-!
 # C28 — deposits and vote rights are never overdrawn  (claimed **partial**)
 
@@ -311,5 +312,35 @@ theorem C28_cr_two_returns_false :
     (by intro tx htx; simp only [List.mem_cons, List.mem_nil_iff, or_false] at htx
         rcases htx with rfl | rfl <;> decide) (by decide)
   revert this; decide
+
+/-! ## T-gen: where the guard is enforced and where it is not
+
+`Guarded` (at most one available-lowering tx per producer, at most one right-consuming tx per stake address in a
+block) is what the transaction POOL enforces for pooled transactions through its conflict slots, and what block
+validation does NOT enforce.  Both facts are regenerated from `mempool/conflictmanager.go` and
+`blockchain/blockvalidator.go` on every run (`Gen/C28.lean`). -/
+
+def slotHas (slot ty fn : String) : Bool :=
+  Gen.C28.slots.any (fun s => s.1 == slot && s.2.any (fun p => p.1 == ty && p.2 == fn))
+
+/-- the pool keeps at most one ReturnDepositCoin / ReturnCRDepositCoin per program code (= per producer / CR
+    candidate), and at most one of ExchangeVotes / Voting / ReturnVotes / CreateNFT per stake address. -/
+theorem C28_gen_pool_enforces_guard :
+    slotHas "slotProgramCode" "ReturnDepositCoin" "strTxProgramCode" = true ∧
+    slotHas "slotProgramCode" "ReturnCRDepositCoin" "strTxProgramCode" = true ∧
+    slotHas "slotExchangeVotes" "ExchangeVotes" "strStake" = true ∧
+    slotHas "slotExchangeVotes" "Voting" "strVoting" = true ∧
+    slotHas "slotExchangeVotes" "ReturnVotes" "strReturnVotes" = true ∧
+    slotHas "slotExchangeVotes" "CreateNFT" "strCreateNFT" = true := by decide
+
+/-- block validation has no per-block rule for any of these transaction types (`CheckDuplicateTx` knows producer and
+    CR registration / update / cancel only), and `checkTxsContext` checks every transaction against the chain state
+    with one `CheckTransactionContext` call, threading nothing but the CRC proposal amount: blocks are where
+    `Guarded` is unenforced (findings C28-two-returns-one-block, -two-cr-returns-, -two-vote-spends-, -two-renewals-). -/
+theorem C28_gen_blocks_do_not_enforce_guard :
+    (["ReturnDepositCoin", "ReturnCRDepositCoin", "Voting", "ReturnVotes", "ExchangeVotes", "CreateNFT",
+      "IllegalProposalEvidence"].all (fun ty => !(Gen.C28.blockDupCases.contains ty))) = true ∧
+    Gen.C28.blockDupCases.contains "CancelProducer" = true ∧ Gen.C28.blockDupCases.contains "UnregisterCR" = true ∧
+    Gen.C28.checkTxsContextCalls.contains "b.CheckTransactionContext" = true := by decide
 
 end ElaVerif.C28
